@@ -326,6 +326,53 @@ theorem exec_table_uniq (F : Facts) (V : Key → Signed → Bool) (evs : List Ev
 
 theorem reachable_table_uniq (evs : List Event) : Uniq (exec ocspFacts V {} evs).1.table :=
   exec_table_uniq ocspFacts V evs {} uniq_empty
+
+/-- `Count()` is the number of keys: deleting a present key removes exactly one item (one item per key), an absent one none. -/
+theorem length_delete (T : Cache.Table κ α) (k : κ) (h : Uniq T) :
+    (delete T k).length + (if (find? T k).isSome then 1 else 0) = T.length := by
+  induction T with
+  | nil => simp [delete, find?]
+  | cons p T ih =>
+    obtain ⟨a, it⟩ := p
+    have hT : Uniq T := by
+      unfold Uniq at h ⊢
+      simp only [List.map_cons, List.nodup_cons] at h
+      exact h.2
+    have ha : a ∉ T.map Prod.fst := by
+      unfold Uniq at h
+      simp only [List.map_cons, List.nodup_cons] at h
+      exact h.1
+    have ih := ih hT
+    simp only [delete] at ih ⊢
+    by_cases hak : a = k
+    · subst hak
+      have hnone : find? T a = none := by
+        cases hf : find? T a with
+        | none => rfl
+        | some x => exact absurd (List.mem_map.mpr ⟨(a, x), Crv.Cache.find?_mem hf, rfl⟩) ha
+      rw [hnone] at ih
+      simp [List.filter, find?] at ih ⊢
+      omega
+    · simp [List.filter, find?, hak] at ih ⊢
+      omega
+
+/-- `Add` of a new key makes the table one larger, `Add` of a present key replaces its item. -/
+theorem length_add (T : Cache.Table κ α) (k : κ) (life now : Nat) (d : α) (h : Uniq T) :
+    (add T k life d now).length = if (find? T k).isSome then T.length else T.length + 1 := by
+  have := length_delete T k h
+  simp only [add, List.length_cons]
+  split <;> simp_all <;> omega
+
+/-- `Value` returns the stored item of the key, if any, and never changes which keys are present. -/
+theorem value_spec (T : Cache.Table κ α) (k k' : κ) (now : Nat) :
+    (value T k now).1 = find? T k ∧ ((find? (value T k now).2 k').isSome = (find? T k').isSome) := by
+  unfold value
+  cases hf : find? T k with
+  | none => simp
+  | some it =>
+    simp only [true_and]
+    rw [find_touch]
+    cases find? T k' <;> simp
 end TableIsMap
 
 /-! Non-vacuity: default 100 ms; responder says good, then flips to revoked; the certificate is read every 40–50 ms.
